@@ -85,8 +85,22 @@ def _work(args):
                 U2 = run_unit(mod, unit, idx, tier)
                 nrep += 1
                 if U.digest() != U2.digest():
-                    raise HarnessError(f"nondeterministic unit {unit!r}: {U.c} vs {U2.c}; "
-                                       f"{[m['clause'] for m in U.mismatches]} vs {[m['clause'] for m in U2.mismatches]}")
+                    if U.mismatches or U2.mismatches:
+                        # The same unit, executed twice in this process, observed different things AND at least one execution
+                        # violated the oracle: the implementation carries state from one call to the next (a cache, a mutated
+                        # default, a reused buffer), so what a call returns depends on what ran before it. That is a violation in
+                        # its own right; the concrete mismatches of both executions are kept. (A divergence WITHOUT any oracle
+                        # mismatch stays a harness error: then it is the harness that is not deterministic.)
+                        k1 = {(x["clause"], json.dumps(x["case"], sort_keys=True)) for x in U.mismatches}
+                        only_second = [m for m in U2.mismatches if (m["clause"], json.dumps(m["case"], sort_keys=True)) not in k1]
+                        U.mismatch("outcome-depends-on-process-history", None,
+                                   f"two executions of the unit in one process differ: first {[m['clause'] for m in U.mismatches][:4]} "
+                                   f"second {[m['clause'] for m in U2.mismatches][:4]}")
+                        U.mismatches.extend(only_second[:4])
+                        for m in only_second[:4]:
+                            U.mcount[(m["clause"], m["finding"])] += 1
+                    else:
+                        raise HarnessError(f"nondeterministic unit {unit!r}: {U.c} vs {U2.c}")
             R.merge(U)
         R.c["determinism_replays"] += nrep
         return ("ok", R)
